@@ -26,6 +26,7 @@ from translate import astutil, tr_cache
 
 PINS = json.loads((VERIF / "translate" / "pins_C02.json").read_text())
 FUEL = 40
+HISTORY_TIMEOUT_S = 20
 
 K_CATCH = "catch:private-entry-replayed-after-change-in-caught-subtree"
 K_PROJ = "validity:File-inside-SimpleExpression-of-cached-reduction-not-checked"
@@ -72,14 +73,28 @@ def _workdir():
 
 def _run_case(case):
     """Worker: one history on the real code (own process: the task registry is per process)."""
+    import signal
+
+    class _Timeout(BaseException):
+        pass
+
+    def _alarm(signum, frame):
+        raise _Timeout()
+
     cp.quiet()
     wd = _workdir()
+    old = signal.signal(signal.SIGALRM, _alarm)
+    signal.alarm(HISTORY_TIMEOUT_S)
     try:
         return cp.run_history_real(case, wd)
+    except _Timeout:
+        return ("crash", f"the history did not finish within {HISTORY_TIMEOUT_S} s on the real scheduler (livelock?)")
     except Exception as e:  # noqa
         import traceback
         return ("crash", f"{type(e).__name__}: {e}\n{traceback.format_exc()[-1500:]}")
     finally:
+        signal.alarm(0)
+        signal.signal(signal.SIGALRM, old)
         shutil.rmtree(wd, ignore_errors=True)
 
 
@@ -297,9 +312,13 @@ class Check(PropertyCheck):
     def oracle(self):
         n = nbad = 0
         seen_sites = set()
+        crashes = []
         for c in self.cases():
             case, real = c["case"], c["real"]
             if isinstance(real, tuple) and real and real[0] == "crash":
+                if len(crashes) < 3:
+                    crashes.append(Finding("unexplained:crash:" + c["tag"], f"history {c['tag']}: {real[1][:300]}",
+                                           {"kind": "history", "case": cp.to_json(case), "run": -1}))
                 continue
             ref = cp.mirror_hist(case["prog"], case["ops"], True, False, fresh=True)
             n += len(real)
@@ -318,6 +337,7 @@ class Check(PropertyCheck):
                     self.findings.append(Finding(k, what, {"kind": "history", "case": cp.to_json(case), "run": j,
                                                            "shared": repr(sh), "fresh": repr(fr)}))
                 break
+        self.findings += crashes          # after the concrete stale answers, so that those lead the replay file
         self.stat("oracle", "executions_compared", n)
         self.stat("oracle", "stale_executions", nbad)
         self.ob("oracle", f"implementation oracle ran: {n} executions of {len(self.cases())} histories on a shared sqlite backend, each compared "
